@@ -113,9 +113,8 @@ func runCase(c Case, ctx *hx.Ctx) *hx.Failure {
 			// re-frame everything written so far (independently of how mosdns split its writes)
 			// and handle every complete frame exactly once
 			pmu.Lock()
-			frames, _ := fc.Frames()
-			todo := frames[processed:]
-			processed = len(frames)
+			todo := fc.FramesFrom(processed)
+			processed += len(todo)
 			pmu.Unlock()
 			for _, q := range todo {
 				handle(q)
